@@ -1,6 +1,6 @@
 (* C06 -- the general theorems of ClosureThm.v specialised to the configuration regenerated from /repo, plus the finite
    facts about the regenerated tables (checked by vm_compute).  These are the statements that break when the source changes. *)
-From Verif Require Import Closure ClosureThm ClosureInst.
+From Verif Require Import Closure ClosureThm ClosureInst StropThmInst.
 Open Scope N_scope.
 
 (* the include side (IncludeGenerator.generate_include_filepart_list) and the output side (Namespace._add_data_type) call
@@ -17,55 +17,154 @@ Lemma path_sites_agree :
   /\ mp_ns_idtype = ns_dir_idtype /\ mp_short_idtype = mp_ns_idtype.
 Proof. repeat split; vm_compute; reflexivity. Qed.
 
-Lemma cfg_idt_agree l st ext sns files pref std stem_ dflt :
-  let c := mk_cfg l st ext sns files pref std stem_ dflt in
+Lemma cfg_idt_agree l st ext sns files pref std stem_ dflt ti hn :
+  let c := mk_cfg l st ext sns files pref std stem_ dflt ti hn in
   lc_inc_short_idt c = lc_out_short_idt c /\ lc_inc_ns_idt c = lc_out_ns_idt c /\ lc_out_ns_idt c = lc_dir_idt c.
 Proof. cbn. repeat split; vm_compute; reflexivity. Qed.
 
 Theorem includes_closed_c : forall q omit ts t i,
   closed q ts = true -> In t ts -> In i (include_list c_cfg q omit t) ->
   In i (map (punct c_cfg) (outputs c_cfg ts)) \/ (omit = false /\ In i (map (punct c_cfg) (support_outputs c_cfg)))
-  \/ In i (lc_std c_cfg (direct q t)).
-Proof. intros. eapply includes_closed_gen; eauto; apply cfg_idt_agree. Qed.
+  \/ In i (lc_std c_cfg (direct q t)) \/ In i (lit_includes c_tmpl_includes omit).
+Proof. intros. eapply (includes_closed_gen c_cfg); eauto; try apply cfg_idt_agree. Qed.
 
 Theorem includes_closed_cpp : forall std hv q omit ts t i,
   closed q ts = true -> In t ts -> In i (include_list (cpp_cfg std hv) q omit t) ->
   In i (map (punct (cpp_cfg std hv)) (outputs (cpp_cfg std hv) ts))
   \/ (omit = false /\ In i (map (punct (cpp_cfg std hv)) (support_outputs (cpp_cfg std hv))))
-  \/ In i (lc_std (cpp_cfg std hv) (direct q t)).
-Proof. intros. eapply includes_closed_gen; eauto; apply cfg_idt_agree. Qed.
+  \/ In i (lc_std (cpp_cfg std hv) (direct q t)) \/ In i (lit_includes cpp_tmpl_includes omit).
+Proof. intros. eapply (includes_closed_gen (cpp_cfg std hv)); eauto; try apply cfg_idt_agree. Qed.
 
 Theorem py_imports_closed : forall q ts t ns p,
   closed q ts = true -> In t ts -> In ns (import_namespaces t) -> In p (prefixes ns) ->
   In (import_target py_cfg p) (ns_outputs py_cfg ts).
-Proof. intros. eapply py_imports_closed_gen; eauto. Qed.
+Proof. intros. eapply (py_imports_closed_gen py_cfg); eauto. Qed.
 
 Theorem py_type_file_in_package_dir : forall t,
   exists f, make_path (lc_sid py_cfg) (lc_stropping py_cfg) (lc_out_short_idt py_cfg) (lc_out_ns_idt py_cfg) (lc_ext py_cfg) t
             = ns_dir (lc_sid py_cfg) (lc_dir_idt py_cfg) (ti_ns t) ++ [f].
 Proof. intros. apply type_file_in_package_dir; vm_compute; reflexivity. Qed.
 
-(* what the C (and, for unsealed standards, C++) get_includes can ever add is a standard header the tables know *)
-Lemma c_std_headers_known : forallb (fun p => existsb (fun d => str_eqb (angle (snd p)) (fst d)) c_declares) c_get_includes = true.
-Proof. vm_compute. reflexivity. Qed.
-
-(* ---- std_includes_cover (C) ---- *)
-Theorem std_includes_cover_c : forall e,
-  c_pod_trigger e = false ->
-  c_covered c_get_includes c_support_includes c_tmpl_std_names c_std_types e = true.
+(* ---- generation completes: stropping never fails on a DSDL name (C09's totality), so sid_of's second arm is dead ---- *)
+Lemma sid_of_ok l ty s : s <> [] -> str_eqb (lower ty) ty_all = false -> strop_lang l ty s = Ok (sid_of l ty s).
 Proof.
-  intros [[] [] [] [] [] [] [] [] [] [] [] []] H; try discriminate H; vm_compute; reflexivity.
+  intros Hs Hty. destruct (strop_total_lang l ty s Hs Hty) as [t Ht]. unfold sid_of. rewrite Ht. reflexivity.
 Qed.
 
-Definition feat_empty_pod : feat :=
-  {| f_int := false; f_float := false; f_vla := false; f_arr := false; f_boolarr := false; f_bool := false; f_primarr := false; f_union := false;
-     f_pod := true; f_empty := true; f_boolvla := false; f_any_union := false |}.
+(* every id type the path / guard / namespace / import sites pass is a legal one (not "all") *)
+Lemma id_types_legal :
+  forallb (fun ty => negb (str_eqb (lower ty) ty_all))
+          [mp_short_idtype; mp_ns_idtype; ns_dir_idtype; c_default_idtype; cpp_default_idtype; py_default_idtype; ty_macro] = true.
+Proof. vm_compute. reflexivity. Qed.
 
-(* known finding F-C06-C-POD: with --omit-serialization-support the include list of an empty type does not declare
-   static_assert / uint8_t although the templates emit them *)
-Theorem std_includes_cover_c_refuted : exists e,
-  c_covered c_get_includes c_support_includes c_tmpl_std_names c_std_types e = false.
-Proof. exists feat_empty_pod. vm_compute. reflexivity. Qed.
+(* ---- Python: the default id type ("any": imports, full_reference_name) and the path id type strop every DSDL identifier alike ---- *)
+Definition res_agree (a b : res) : bool := match a, b with Ok x, Ok y => str_eqb x y | _, _ => false end.
+
+Lemma py_reserved_any_path : forallb (fun w => res_agree (strop_py py_default_idtype w) (strop_py ns_dir_idtype w)) (sc_reserved cfg_py) = true.
+Proof. vm_compute. reflexivity. Qed.
+
+Lemma py_pattern_free ty t : ty = py_default_idtype \/ ty = ns_dir_idtype -> pattern_lang LPy ty t = false.
+Proof. intros [->| ->]; vm_compute; reflexivity. Qed.
+
+Lemma py_any_path c : valid_ident c = true -> strop_py py_default_idtype c = strop_py ns_dir_idtype c.
+Proof.
+  intros Hv. destruct (reserved_lang LPy c) eqn:R.
+  - unfold reserved_lang, is_reserved in R. apply str_in_spec in R.
+    pose proof py_reserved_any_path as H. rewrite forallb_forall in H. specialize (H c R).
+    unfold res_agree in H. destruct (strop_py py_default_idtype c); try discriminate. destruct (strop_py ns_dir_idtype c); try discriminate.
+    destruct (str_eqb_spec t t0); [subst; reflexivity|discriminate].
+  - rewrite (strop_id_py_thm py_default_idtype c), (strop_id_py_thm ns_dir_idtype c); try reflexivity.
+    + unfold clean_lang. rewrite Hv, R, py_pattern_free; auto.
+    + unfold clean_lang. rewrite Hv, R, py_pattern_free; auto.
+Qed.
+
+Lemma py_sid_any_path c : valid_ident c = true -> lc_sid py_cfg (lc_default_idt py_cfg) c = lc_sid py_cfg (lc_dir_idt py_cfg) c.
+Proof. intros Hv. change (sid_of LPy py_default_idtype c = sid_of LPy ns_dir_idtype c). unfold sid_of. change (strop_lang LPy) with strop_py. rewrite (py_any_path c Hv). reflexivity. Qed.
+
+(* the dotted import name spells the directory chain, for every namespace made of DSDL identifiers: no hypothesis left *)
+Theorem py_import_names_are_dirs_py : forall ns, forallb valid_ident ns = true ->
+  map (lc_sid py_cfg (lc_default_idt py_cfg)) ns = ns_dir (lc_sid py_cfg) (lc_dir_idt py_cfg) ns.
+Proof.
+  intros ns H. apply py_import_names_are_dirs; [vm_compute; reflexivity|]. intros c Hc. rewrite forallb_forall in H. apply py_sid_any_path. auto.
+Qed.
+
+(* literal imports of the type template: provided by the interpreter / third parties, or a generated support module (when not omitted) *)
+Theorem py_literal_imports_closed :
+  forallb (fun m => str_in m py_external || str_in (module_file py_cfg m) (generated_support py_cfg false)) py_literal_imports = true.
+Proof. vm_compute. reflexivity. Qed.
+
+(* ... which is FALSE with --omit-serialization-support: the support module is imported but not generated (known finding F-C06-PY-POD);
+   stated on the regenerated tables so that it follows the code: it holds iff the template still imports a support module literally *)
+Theorem py_literal_imports_omit :
+  forallb (fun m => str_in m py_external || str_in (module_file py_cfg m) (generated_support py_cfg true)) py_literal_imports
+  = forallb (fun m => str_in m py_external) py_literal_imports.
+Proof. vm_compute. reflexivity. Qed.
+
+(* Namespace.j2's `from <full_reference_name> import <short_reference_name>`: the module it names is the generated file of the type.
+   Hypotheses are computable booleans on the type's own name (satisfiable: Example below); stropping agreement is py_any_path *)
+Theorem py_init_imports_closed : forall ts d,
+  In d ts -> forallb valid_ident (ti_ns (td_id d)) = true -> valid_ident (versioned (td_id d)) = true ->
+  str_eqb (stem (short_ref (lc_sid py_cfg) (lc_stropping py_cfg) (lc_default_idt py_cfg) (td_id d)))
+          (short_ref (lc_sid py_cfg) (lc_stropping py_cfg) (lc_default_idt py_cfg) (td_id d)) = true ->
+  In (posix (removelast (init_import_module py_cfg (td_id d)) ++ [last (init_import_module py_cfg (td_id d)) [] ++ lc_ext py_cfg]))
+     (outputs py_cfg ts).
+Proof.
+  intros ts d Hd Hns Hv Hst.
+  pose proof (py_init_imports_closed_gen py_cfg ts d Hd) as H. rewrite map_id in H. apply H.
+  - intros c Hc. rewrite forallb_forall in Hns. exact (py_sid_any_path c (Hns c Hc)).
+  - exact (py_sid_any_path _ Hv).
+  - destruct (str_eqb_spec (stem (short_ref (lc_sid py_cfg) (lc_stropping py_cfg) (lc_default_idt py_cfg) (td_id d)))
+                           (short_ref (lc_sid py_cfg) (lc_stropping py_cfg) (lc_default_idt py_cfg) (td_id d))); [assumption|discriminate].
+Qed.
+
+(* ---- std_includes_cover (C) ---- *)
+Lemma In_bools b : In b bools.
+Proof. destruct b; cbn; auto. Qed.
+
+Lemma all_feats_complete e : In e (all_feats (f_pod e)).
+Proof.
+  destruct e as [a b c d e5 f g h pod i j k m]. cbn [f_pod]. unfold all_feats.
+  repeat (apply in_flat_map; eexists; split; [apply In_bools|]).
+  apply in_map_iff. eexists. split; [reflexivity|apply In_bools].
+Qed.
+
+Lemma c_ser_all : forallb (fun e => c_float_trigger e || c_cov e) (all_feats false) = true.
+Proof. vm_compute. reflexivity. Qed.
+
+(* with serialization support: for every combination of dependency flags and features, every standard name the templates or the
+   filters emit is made visible by a header from get_includes / the support header's includes / base.j2's literal includes *)
+Theorem std_includes_cover_c : forall e, f_pod e = false -> c_float_trigger e = false -> c_cov e = true.
+Proof.
+  intros e Hp Ht. pose proof c_ser_all as H. rewrite forallb_forall in H.
+  pose proof (all_feats_complete e) as Hin. rewrite Hp in Hin. specialize (H e Hin). rewrite Ht in H. exact H.
+Qed.
+
+(* the same for the features COMPUTED from a type definition: the flags are DependencyBuilder.direct's *)
+Theorem std_includes_cover_c_tdef : forall q omit_float empty t,
+  c_float_trigger (feat_of q false omit_float empty t) = false -> c_cov (feat_of q false omit_float empty t) = true.
+Proof. intros. apply std_includes_cover_c; auto. Qed.
+
+(* without the support header (--omit-serialization-support): the headers are self-sufficient for ALL features iff the regenerated
+   tables say so (c_pod_selfsufficient is computed from get_includes + base.j2's literal includes; false = known finding F-C06-C-POD) *)
+Theorem std_includes_cover_c_pod_iff :
+  c_pod_selfsufficient = true <-> (forall e, f_pod e = true -> c_float_trigger e = false -> c_cov e = true).
+Proof.
+  unfold c_pod_selfsufficient. split.
+  - intros H e Hp Ht. rewrite forallb_forall in H. pose proof (all_feats_complete e) as Hin. rewrite Hp in Hin.
+    specialize (H e Hin). rewrite Ht in H. exact H.
+  - intros H. apply forallb_forall. intros e Hin.
+    assert (Hp : f_pod e = true).
+    { unfold all_feats in Hin. repeat (apply in_flat_map in Hin; destruct Hin as [? [_ Hin]]). apply in_map_iff in Hin.
+      destruct Hin as [? [<- _]]. reflexivity. }
+    destruct (c_float_trigger e) eqn:T; [reflexivity|]. cbn. apply H; auto.
+Qed.
+
+(* dependence on get_includes: with the support header's includes taken away, stdlib.h is what declares size_t / NULL *)
+Lemma c_get_includes_needed :
+  c_covered [] c_support_includes c_tmpl_includes c_tmpl_std_names c_filter_names c_declares c_std_types
+            {| f_int := true; f_float := false; f_vla := true; f_arr := false; f_boolarr := false; f_bool := true; f_primarr := false;
+               f_union := false; f_pod := true; f_empty := false; f_boolvla := false; f_any_union := false; f_omit_float := false |} = false.
+Proof. vm_compute. reflexivity. Qed.
 
 (* ---- guards ---- *)
 Definition s_ (l : list N) : str := l.
@@ -103,14 +202,20 @@ Definition ty_user : tyid := {| ti_ns := [s_ [99;108;97;115;115]; s_ [103;111;11
 Definition td_None : tdef := {| td_id := ty_class_None; td_isunion := false; td_hidden_union := false; td_service := false; td_attrs := [DInt; DFix DBool] |}.
 Definition td_user : tdef := {| td_id := ty_user; td_isunion := false; td_hidden_union := false; td_service := false; td_attrs := [DComp ty_class_None; DVar (DComp ty_class_None)] |}.
 
-Lemma example_closed : closed true [td_None; td_user] = true.
+Lemma example_closed : closed q_union_live [td_None; td_user] = true.
 Proof. vm_compute. reflexivity. Qed.
 
-Lemma example_include_c : include_list c_cfg true false td_user
+Lemma example_include_c : include_list c_cfg q_union_live false td_user
   = [s_ [60;95;99;108;97;115;115;47;78;111;110;101;95;49;95;48;46;104;62];                                   (* <_class/None_1_0.h> *)
      s_ [60;110;117;110;97;118;117;116;47;115;117;112;112;111;114;116;47;115;101;114;105;97;108;105;122;97;116;105;111;110;46;104;62];  (* <nunavut/support/serialization.h> *)
      s_ [60;115;116;100;108;105;98;46;104;62]].                                                               (* <stdlib.h> *)
 Proof. vm_compute. reflexivity. Qed.
+
+Lemma example_init_import_hyps :
+  forallb valid_ident (ti_ns (td_id td_None)) = true /\ valid_ident (versioned (td_id td_None)) = true
+  /\ str_eqb (stem (short_ref (lc_sid py_cfg) (lc_stropping py_cfg) (lc_default_idt py_cfg) (td_id td_None)))
+             (short_ref (lc_sid py_cfg) (lc_stropping py_cfg) (lc_default_idt py_cfg) (td_id td_None)) = true.
+Proof. vm_compute. auto. Qed.
 
 Lemma example_import_py : py_imports py_cfg td_user = [s_ [99;108;97;115;115;95]].     (* class_ *)
 Proof. vm_compute. reflexivity. Qed.
